@@ -43,3 +43,12 @@ Definition read_section_divider_v0 (s : stream) : res leaf :=
                   else Ok (None, s1));
   do (sub, _) <- r_opt (is_readable 4 s2) (read_u 4) s2;
   Ok (LSectionDivider kind (option_map fst sb) (option_map snd sb) sub).
+
+(* ---- descriptor.read_length_and_key before /repo 708c13e: whatever fp.read returned was the key, so a key cut short
+   by the end of the data (1-3 bytes read with a zero length field) became a term of the process-wide set *)
+From PsdV Require Import Psd.Descriptor.
+Definition read_key_v0 (t : terms) (s : stream) : res (key * terms * stream) :=
+  do (n, s1) <- read_u 4 s;
+  let d := read_upto (if n =? 0 then 4 else n) s1 in
+  let k := fst d in
+  Ok (k, if (n =? 0) && negb (key_in k t) then k :: t else t, snd d).
